@@ -8,6 +8,7 @@ MCRoundOpts == {o \in [lg : {"day", "hour", "minute", "second", "nanosecond", "a
                   /\ (o.inc \in {3, 8} => o.sm = "hour")
                   /\ (o.sm = "millisecond" => o.inc \in {1, 2, 5}) /\ (o.sm = "nanosecond" => o.inc \in {1, 2, 5})}
 Cls == CASE last.op = "new" -> (IF SignUniform(last.d) THEN "uniform" ELSE "mixed") \o (IF last.out.kind = "ok" THEN "/valid" ELSE "/invalid")
+         [] last.op = "fromDayAndTime" -> (IF SignUniform(last.d) THEN "uniform" ELSE "mixed") \o (IF last.out.kind = "ok" THEN "/valid" ELSE "/invalid")
          [] last.op = "fromPartial" -> (IF DOMAIN last.p = {} THEN "empty" ELSE IF DOMAIN last.p = DurKeySet THEN "full" ELSE "some") \o "/" \o last.out.kind
          [] last.op \in {"add", "subtract", "compare"} -> (IF HasCalendarUnits(last.a) \/ HasCalendarUnits(last.b) THEN "calendar" ELSE "time") \o "/" \o last.out.kind
          [] last.op = "round" -> last.o.sm \o "/" \o last.o.lg \o "/" \o last.out.kind
@@ -15,6 +16,7 @@ Cls == CASE last.op = "new" -> (IF SignUniform(last.d) THEN "uniform" ELSE "mixe
          [] OTHER -> "-"
 CaseOf ==
   CASE last.op = "new" -> [op |-> "Duration.new", cls |-> Cls, args |-> [dur |-> last.d], out |-> last.out]
+    [] last.op = "fromDayAndTime" -> [op |-> "Duration.fromDayAndTime", cls |-> Cls, args |-> [dur |-> last.d], out |-> last.out]
     [] last.op = "fromPartial" -> [op |-> "Duration.fromPartial", cls |-> Cls, args |-> [p |-> last.p], out |-> last.out]
     [] last.op = "timeInRange" -> [op |-> "Duration.timeInRange", cls |-> IF last.out.val THEN "balanced" ELSE "unbalanced", args |-> [recv |-> last.a], out |-> last.out]
     [] last.op \in {"negated", "abs", "sign"} -> [op |-> "Duration." \o last.op, cls |-> Cls, args |-> [recv |-> last.a], out |-> last.out]
